@@ -239,6 +239,30 @@ def glue_oracles(ctx, rng, alld, dobj):
                 ctx.violation('add_years(n) differs from add_months(12 n), or list-valued calls differ from scalar calls',
                               {'date': t, 'years': yy, 'add_years': r, 'add_months': e, 'vector_years': vec,
                                'vector_months': vm}, clause='add-years')
+    # list-valued month/year arithmetic on month-end dates: each element must equal the scalar call (elements must
+    # not interact — e.g. a day clipped for one element must not carry over to the next)
+    ends = [t for t in sample if t[0] >= 29 and 1902 <= t[2] <= 2190][:300]
+    for t in ends:
+        dt = dobj[t]
+        for ks in ([1, 2, 3], [-1, 1, 13], [12, 1, 24, 2], [3, -3, 6]):
+            try:
+                vec = [fmt(x) for x in dt.add_months(list(ks))]
+                sc = [fmt(dt.add_months(k)) for k in ks]
+            except Exception as ex:  # noqa: BLE001
+                vec, sc = 'E:' + type(ex).__name__, None
+            n += 1
+            if vec != sc:
+                ctx.violation('list-valued add_months differs from the scalar calls element by element',
+                              {'date': t, 'months': ks, 'vector': vec, 'scalar': sc}, clause='vectorised-months')
+                break
+        try:
+            tv = [fmt(x) for x in dt.add_tenor(['1M', '2M', '1Y', '3M'])]
+            ts_ = [fmt(dt.add_tenor(x)) for x in ['1M', '2M', '1Y', '3M']]
+        except Exception as ex:  # noqa: BLE001
+            tv, ts_ = 'E:' + type(ex).__name__, None
+        if tv != ts_:
+            ctx.violation('list-valued add_tenor differs from the scalar calls element by element',
+                          {'date': t, 'vector': tv, 'scalar': ts_}, clause='vectorised-months')
     # tenor strings: ON / TN = one day, weeks, lists, malformed
     for t in sample[:400]:
         dt = dobj[t]
